@@ -30,7 +30,7 @@ Definition hex_val (c : ascii) : option Z :=
 Fixpoint digits_to_Z (cs : list ascii) (acc : Z) : option Z :=
   match cs with
   | [] => Some acc
-  | c :: cs' => if is_digit c then digits_to_Z cs' (acc * 10 + (Z.of_nat (nat_of_ascii c) - 48)) else None
+  | c :: cs' => if is_digit c then digits_to_Z cs' (10 * acc + (Z.of_nat (nat_of_ascii c) - 48)) else None
   end.
 
 Fixpoint hex_to_bytes (cs : list ascii) : option (list val) :=
